@@ -1174,6 +1174,14 @@ class AttrParser(BaseParser):
             type: AnyFloat | IntegerType | IndexType | ComplexType,
         ):
             if isinstance(type, AnyFloat):
+                if (
+                    isinstance(self.value, int)
+                    and not isinstance(self.value, bool)
+                    and self.span.text[:2] in ("0x", "0X")
+                ):
+                    # Hexadecimal literals are the bit pattern of the float
+                    raw = self.value.to_bytes(type.compile_time_size, "little")
+                    return type.unpack(raw, 1)[0]
                 return self.to_float(parser)
 
             match type:
